@@ -10,11 +10,16 @@
 (***************************************************************************)
 EXTENDS MxjPath, MxjChars
 
-RECURSIVE SplitOn(_, _)
-SplitOn(cs, sep) ==
-  IF \A i \in 1..Len(cs) : cs[i] # sep THEN <<cs>>
-  ELSE LET i == CHOOSE i \in 1..Len(cs) : cs[i] = sep /\ \A j \in 1..(i-1) : cs[j] # sep
-       IN <<SubSeq(cs, 1, i-1)>> \o SplitOn(SubSeq(cs, i+1, Len(cs)), sep)
+\* strings.Split(cs, sep) for a non-empty separator of ANY length (a character sequence): non-overlapping, left to right
+RECURSIVE SplitOnSeq(_, _)
+SplitOnSeq(cs, sp) ==
+  LET n == Len(sp)
+      hits == {i \in 1..(Len(cs) - n + 1) : SubSeq(cs, i, i + n - 1) = sp} IN
+  IF n = 0 \/ hits = {} THEN <<cs>>
+  ELSE LET i == CHOOSE i \in hits : \A j \in hits : i <= j
+       IN <<SubSeq(cs, 1, i-1)>> \o SplitOnSeq(SubSeq(cs, i+n, Len(cs)), sp)
+\* sep: a TLC string (one or more characters)
+SplitOn(cs, sep) == SplitOnSeq(cs, CharsOf(sep))
 HasChar(cs, c) == \E i \in 1..Len(cs) : cs[i] = c
 DigitVal(c) == CASE c = "0" -> 0 [] c = "1" -> 1 [] c = "2" -> 2 [] c = "3" -> 3 [] c = "4" -> 4 [] c = "5" -> 5 [] c = "6" -> 6 [] c = "7" -> 7 [] c = "8" -> 8 [] c = "9" -> 9 [] OTHER -> -1
 RECURSIVE NumVal(_, _)
